@@ -349,6 +349,7 @@ func genGrammar(pf *pkgFiles) (*gramGen, string, error) {
 	var b strings.Builder
 	b.WriteString("-- GENERATED by /verif/harness/extract from /repo/roll.peg.go (var g). Do not edit.\nimport DS.Model.PegTypes\nnamespace DS.Gen.Grammar\nopen DS.Peg\n\n")
 	var names []string
+	var starts []int
 	for i, el := range rulesLit.Elts {
 		cl, ok := el.(*ast.CompositeLit)
 		if !ok {
@@ -357,6 +358,7 @@ func genGrammar(pf *pkgFiles) (*gramGen, string, error) {
 		f := kv(cl)
 		name, _ := strLit(f["name"])
 		names = append(names, name)
+		starts = append(starts, g.nextID)
 		fmt.Fprintf(&b, "def rule_%d : PExpr := %s\n", i, g.node(f["expr"]))
 	}
 	if g.err != nil {
@@ -375,6 +377,13 @@ func genGrammar(pf *pkgFiles) (*gramGen, string, error) {
 			b.WriteString(", ")
 		}
 		b.WriteString(leanStr(n))
+	}
+	b.WriteString("]\n\n/-- first node id of every rule (ids are pre-order, rule after rule) -/\ndef ruleStarts : Array Nat := #[")
+	for i, n := range starts {
+		if i > 0 {
+			b.WriteString(", ")
+		}
+		fmt.Fprintf(&b, "%d", n)
 	}
 	fmt.Fprintf(&b, "]\n\ndef nodeCount : Nat := %d\n\nend DS.Gen.Grammar\n", g.nextID)
 	return g, b.String(), nil
